@@ -110,6 +110,20 @@ Proof. apply intern_same. exact spw_eqb_eq. Qed.
 Lemma dummy_table_is_model : forall dt, dummy_of_table dummy_value_table dt = Concat.dummy_code dt.
 Proof. intros []; reflexivity. Qed.
 
+(* ... and for an unsigned integer type of any width: the integer branch with the cast = Concat.dummy_code_u (the filler
+   of get_sensor_u), i.e. 2^b - 1 (ConcatP.unsigned_filler_in_range) *)
+Lemma dummy_table_u_is_model : forall ubits dt,
+  dummy_of_table_u dummy_value_table dummy_int_is_cast_into_type ubits dt = Concat.dummy_code_u ubits dt.
+Proof.
+  intros ubits dt. destruct dt; try reflexivity.
+  cbn. unfold in_class_u, Concat.int_dummy, cast_filler. cbn.
+  destruct (ubits <=? 0)%Z eqn:B.
+  - cbn. assert ((0 <? ubits)%Z = false) as -> by (apply Z.ltb_ge; apply Z.leb_le; exact B). reflexivity.
+  - cbn. assert ((0 <? ubits)%Z = true) as -> by (apply Z.ltb_lt; apply Z.leb_gt; exact B). reflexivity.
+Qed.
+Lemma dummy_cast_constants_ok : dummy_int_is_cast_into_type = true /\ dummy_int_before_cast = Concat.dummy_code SensorCache.DInt.
+Proof. split; reflexivity. Qed.
+
 Lemma ident_constants_ok :
   subarray_description_parts = [("ants", "description"); ("corr_products", "inpA,inpB")]%string /\
   subarray_keeps_given_order = true /\
